@@ -318,7 +318,7 @@ type didVariant struct {
 	Bulk     int  // genesis-injected filler DIDs
 	Tombs    int  // every Tombs-th filler DID (in store order) is a tombstone
 	Prefix   bool // alphabet also has two DIDs one of which is a byte-prefix of the other
-	HugeSeq  bool // genesis: d2 already exists (document D1, key k1) at sequence 2^63-1, dp at 2^63+10
+	HugeSeq  bool // genesis: d2 already exists (document D1, key k1) at sequence 2^63-1, dp at 2^63+10, dp+m (document D2, key k2) at 9
 	ID       string
 	Replays  bool // C04: Replay(i) ops
 	EmptyID  bool // C04/C05: create with an empty-id document
@@ -484,6 +484,16 @@ func didOps(e *didEnv, v didVariant) []explore.Op {
 	ops = append(ops, explore.Op{Name: "Deactivate(d1,vm=d1#d2#key1,k1,via=R1)", Tx: func(w *world.World, m any) *world.TxSpec {
 		return tx(R1, &didtypes.MsgDeactivateDIDRequest{Did: d1, VerificationMethodId: nested(d1, d2), Signature: e.sign(&didtypes.DIDDocument{Id: d1}, seqOf(m, d1), 1), FromAddress: R1.Bech})
 	}})
+	// no verification method named at all: a proof must name the authentication method it was made with
+	ops = append(ops,
+		explore.Op{Name: "Deactivate(d1,vm=empty,k1,via=R2)", Tx: func(w *world.World, m any) *world.TxSpec {
+			return tx(R2, &didtypes.MsgDeactivateDIDRequest{Did: d1, VerificationMethodId: "", Signature: e.sign(&didtypes.DIDDocument{Id: d1}, seqOf(m, d1), 1), FromAddress: R2.Bech})
+		}},
+		explore.Op{Name: "Update(d1,D2(d1),vm=empty,signedBy=k3,via=R2)", Tx: func(w *world.World, m any) *world.TxSpec {
+			doc := e.doc("D2", d1)
+			return tx(R2, &didtypes.MsgUpdateDIDRequest{Did: d1, Document: doc, VerificationMethodId: "", Signature: e.sign(doc, seqOf(m, d1), 3), FromAddress: R2.Bech})
+		}},
+	)
 	// the pre-v2 spelling with a network segment (did:panacea:mainnet:<id>) is not a DID of this chain
 	ops = append(ops, explore.Op{Name: "Create(did:panacea:mainnet:<id of d1>,D1(same),k1,via=R1)", Tx: func(w *world.World, m any) *world.TxSpec {
 		legacy := "did:panacea:mainnet:" + strings.TrimPrefix(d1, "did:panacea:")
@@ -495,12 +505,12 @@ func didOps(e *didEnv, v didVariant) []explore.Op {
 		dp, dpm := e.Prefix[0], e.Prefix[1]
 		ops = append(ops,
 			create(dp, dp, "D1", 1, 0, R1),
-			create(dpm, dpm, "D1", 2, 0, R2),
+			create(dpm, dpm, "D2", 2, 0, R2), // D2: key2 is the authentication key
 			update(dp, dp, "D5", "D5", 1, 0, R1),
 			update(dpm, dpm, "D2", "D2", 2, 0, R2),
 			deact(dp, 1, 0, R1),
 			// the did field is a byte-prefix of the document id (and the other way round): a document about ANOTHER DID
-			create(dp, dpm, "D1", 2, 0, R1), // an observed create of dp+m re-submitted under dp
+			create(dp, dpm, "D2", 2, 0, R1), // an observed create of dp+m re-submitted under dp
 			create(dpm, dp, "D1", 1, 0, R2),
 			explore.Op{Name: "Update(dp,D1(dp+m) with dp's key,proof by dp#key1,k1,via=R2)", Tx: func(w *world.World, m any) *world.TxSpec {
 				doc := e.doc("D1", dpm)
@@ -698,6 +708,8 @@ func didSystem(v didVariant) *explore.System {
 				fill := map[string]*didtypes.DIDDocumentWithSeq{
 					env.DIDs[1]:   {Document: env.doc("D1", env.DIDs[1]), Sequence: 1<<63 - 1},
 					env.Prefix[0]: {Document: env.doc("D1", env.Prefix[0]), Sequence: 1<<63 + 10},
+					// ... and one at sequence 9: its next accepted change makes the sequence one decimal digit longer
+					env.Prefix[1]: {Document: env.doc("D2", env.Prefix[1]), Sequence: 9},
 				}
 				opts.Mutate = func(gs map[string]json.RawMessage, cdc codec.Codec) {
 					gs["did"] = cdc.MustMarshalJSON(&didtypes.GenesisState{Documents: fill})
